@@ -24,6 +24,10 @@ type c19case struct {
 	Delay         int        `json:"delay_us"`
 	RPCDelays     []ipAction `json:"rpcdelays,omitempty"`
 	Repeat        int        `json:"repeat"`
+	// FailRun: 1 + the index of a derived run that fails by script (a branch of its own that does
+	// not depend on the shared result fails at once); it is expected to return that error, and
+	// the other runs, which share the recomputation of the result with it, must be unaffected
+	FailRun int `json:"failrun,omitempty"`
 }
 
 func runC19case(t *vf.T, c c19case) {
@@ -103,6 +107,8 @@ func runC19case(t *vf.T, c c19case) {
 				// The result of a derived program can consist of the shared result's own tasks (a Func
 				// that returns its argument): scanning it after the discard may report an error.
 				t.Count("scans_failed_after_discard", 1)
+			case i == c.FailRun-1 && o.RunErr != nil:
+				t.Count("runs_failing_as_scripted", 1)
 			case o.RunErr != nil || o.ScanErr != nil:
 				t.Violate(fmt.Sprintf("concurrent-run-failed discard=%v exec=%s", discarded, ex), fmt.Sprintf("run %d of %d concurrent runs over a shared result failed: run: %v scan: %v | %s", i, len(c.Derived), o.RunErr, o.ScanErr, specString(&sp)))
 			default:
@@ -232,6 +238,20 @@ func runC19(r *vf.Runner) {
 	nl, nb, rep := 16, 6, 5
 	if !r.Quick() {
 		nl, nb, rep = 60, 20, 40
+	}
+	// one of the concurrent runs fails early while all of them wait for the recomputation of the
+	// shared (discarded) result, which one of them performs
+	for _, conf := range []sessConf{localP4, {Kind: "local", P: 1}, bm2} {
+		for k := 0; k < rep; k++ {
+			base := Spec{Nodes: []PNode{{Op: "readerfunc", Shards: 3, Rows: 60, Out: []string{"int", "int64"}, Salt: 4, Mod: 9, Chunks: []int{20}}, {Op: "map", In: []int{0}, Out: []string{"int", "int64"}, Src: []int{0, 1}, Salt: 1}}}
+			failing := Spec{Nodes: []PNode{{Op: "arg", Arg: 0}, {Op: "const", Shards: 1, Rows: 5, Out: []string{"int", "int64"}, Salt: 2, Mod: 9},
+				{Op: "map", In: []int{1}, Out: []string{"int", "int64"}, Src: []int{0, 1}, Salt: 3}, {Op: "cogroup", In: []int{0, 2}}},
+				Fail: &FailSpec{Node: 2, Mode: "panic", AtCall: 0, Persist: true, Msg: "verif-c19-scripted-failure"}}
+			ok1 := Spec{Nodes: []PNode{{Op: "arg", Arg: 0}, {Op: "map", In: []int{0}, Out: []string{"int", "int64"}, Src: []int{0, 1}, Salt: 5}}}
+			ok2 := Spec{Nodes: []PNode{{Op: "arg", Arg: 0}, {Op: "reduce", In: []int{0}, Fold: "sum"}}}
+			c := c19case{Conf: conf, Base: base, Derived: []Spec{ok1, failing, ok2, ok1}, FailRun: 2, DiscardBefore: true, Delay: []int{300, 2000, 8000}[k%3], Repeat: k}
+			r.Case(c, func(t *vf.T) { runC19case(t, c) })
+		}
 	}
 	for i := 0; i < nl+nb; i++ {
 		conf := localP4
